@@ -53,7 +53,7 @@ import locale
 ENC = locale.getpreferredencoding(False)     # the library opens files with the default text encoding
 if 'utf' not in ENC.lower():                  # the title must be representable in the file encoding
     TITLES.pop('unicode')
-NX = 15                                      # size of the coordinate alphabet
+NX = 18                                      # size of the coordinate alphabet
 
 
 def decimals_of(fmt):
@@ -74,7 +74,8 @@ def alphabet(d, vel):
     out = [0.0, -0.0, u('0.5'), -u('0.5'), u('1.5'), u('2.5'), u('3.4999999'),
            1.23456789, -12.3456789, float(maxpos), float(maxneg),
            float(maxpos + edge), float(maxneg - edge),
-           2.0 ** -(dd + 1), -3 * 2.0 ** -(dd + 1)]       # exact binary rounding ties
+           2.0 ** -(dd + 1), -3 * 2.0 ** -(dd + 1),       # exact binary rounding ties
+           -u('0.7'), u('0.7'), -u('0.3')]                 # between half a unit and a unit: rounds away from zero
     assert len(out) == NX
     return out
 
@@ -303,13 +304,13 @@ class C13(Check):
             'file with >= 1 atom record that the real reader was then asked to read')
     technique = ('exhaustive enumeration of four input sub-products on the real GroFile writer and reader over '
                  'real files; statement oracle + independent reference reader on the written bytes')
-    level_text = ('every member of P1 (6x6 names x 10x10 numbers), P2 (7 formats x 45 boundary triples x velocities x '
+    level_text = ('every member of P1 (6x6 names x 10x10 numbers), P2 (7 formats x 54 boundary triples x velocities x '
                   '1..3 records), P3 (7 formats x velocities x 5 titles x 10 boxes (incl. one for each single off-diagonal component) x count mode), P4 (interaction product, '
                   '3024 x 1..3 records) and 299/300-record files is written by the real writer to a real file and read '
-                  'back, in both tiers; thorough adds the full 15^3 cube of the coordinate alphabet per format x velocities '
+                  'back, in both tiers; thorough adds the full 18^3 cube of the coordinate alphabet per format x velocities '
                   'and the sizes 9, 10, 99, 100; coverage of that finite product, not a proof over all reals / strings')
     level_note = ('trusted: the reference reader mcx/ref/gro.py (written from the format definition), Python float/Decimal; '
-                  'not covered: values outside the alphabets (coordinates: 15 boundary values per format; generic values '
+                  'not covered: values outside the alphabets (coordinates: 18 boundary values per format; generic values '
                   'from a seeded table), non-ASCII titles, sizes other than 1..3, 299, 300')
     assumptions = ['coordinates/velocities are constructed to fit the field width after rounding (statement: '
                    '"values that fit the field width")',
@@ -369,7 +370,7 @@ class C13(Check):
             for f in FORMATS:
                 for vel in (0, 1):
                     for a0 in range(0, NX, 5):
-                        u.append({'p': 'P2cube', 'fmt': f, 'vel': vel, 'a': [a0, a0 + 5]})
+                        u.append({'p': 'P2cube', 'fmt': f, 'vel': vel, 'a': [a0, min(a0 + 5, NX)]})
         return u
 
     def cases(self, unit, tier, seed):
